@@ -8,4 +8,6 @@ for e,r in d['results'].items():
     ch=[(x['name'],x['value']) for x in v['draws'] or [] if x['kind']=='choice']
     k=(e,v['kind'],v['id'],tuple(ch))
     if k in seen: continue
-    seen.add(k); print('  ',k[1:3],v['pos'], ' '.join('%s=%s'%(x['name'],x.get('value')) for x in v['draws'] or [])[:400], (v['trace'] or [])[:8])
+    seen.add(k)
+    if len(seen)>12: continue
+    print('  ',k[1:3],v['pos'], ' '.join('%s=%s'%(x['name'],x.get('value')) for x in v['draws'] or [])[:400], (v['trace'] or [])[:8])
